@@ -80,6 +80,16 @@ def fixed_cases():
     yield {'ops': [['regp', ['U', 'C']], ['regp', ['C']], ['print', 'C'], ['regn', 'B2'], ['print', 'D'], ['isreg', 'U', False, False, True]]}
     yield {'ops': [['regp', ['U']], ['regps', ['C']], ['print', 'C'], ['print', 'U'], ['regps', ['A']], ['print', 'A'], ['print', 'B']]}
     yield {'ops': [['regp', ['U', 'C']], ['regpp'], ['print', 'U'], ['regpp'], ['print', 'C']]}
+    # one class registered three times (by class / by name in every order), printed at every point in between
+    import itertools
+    for kinds in itertools.product(('regc', 'regn'), repeat=3):
+        for prints in itertools.product((False, True), repeat=2):
+            ops = []
+            for i, k in enumerate(kinds):
+                ops.append([k, 'A'])
+                if i < 2 and prints[i]:
+                    ops.append(['print', 'A'])
+            yield {'ops': ops + [['print', 'A'], ['print', 'C'], ['isreg', 'A', True, True, False]]}
 
 
 def strategy(tier):
